@@ -225,7 +225,7 @@ def C18(tier, seed):
     n = "300" if tier == "quick" else "6000"
     gen = [{"name": "life_paths", "module": "LifecycleModel", "cfg": "LifecycleModel.cfg", "extra": ["-simulate", f"num={n}", "-depth", "12", "-seed", str(seed)]}]
     jobs = []
-    shards, sample = (4, 60) if tier == "quick" else (16, 1500)
+    shards, sample = (4, 60) if tier == "quick" else (16, 500)
     for s_ in range(shards):
         jobs.append({"name": f"life_{s_}", "args": ["life", "--seed", str(seed * 100 + s_), "--paths", "@life_paths@", "--sample", str(sample)]})
     jobs += hist_jobs("hist_spl_", seed, 2 if tier == "quick" else 8, 4 if tier == "quick" else 40, 150, "spl", ["--rewards", "1"])
